@@ -58,7 +58,9 @@ static struct http_cookie * mk(void)
 	H->connect_cookie = NULL; H->R = (void *)1; H->W = NULL; H->ssl = NULL; H->s = -1; H->sslhost = NULL; H->req_head = NULL; H->res_head = NULL; H->res.headers = NULL;
 	H->callback = ucb; H->cookie = NULL; H->chunked = nd_bool(); H->res.status = 200; H->res.nheaders = 0;
 	H->res_bodylen_max = nd_size(); H->res.bodylen = nd_size(); H->res_bodylen_alloc = nd_size(); H->readlen = nd_size();
-	ASSUME(H->res.bodylen <= H->res_bodylen_alloc && H->res_bodylen_alloc <= H->res_bodylen_max && H->res_bodylen_alloc <= 8);
+	/* representation invariant: bodylen <= alloc <= max + slack, where slack = 2 while a chunk's trailing CRLF may be stored */
+	size_t slack = (H->chunked && H->res_bodylen_max <= SIZE_MAX - 2) ? 2 : 0;
+	ASSUME(H->res.bodylen <= H->res_bodylen_alloc && H->res_bodylen_alloc <= 8 && (H->res_bodylen_alloc <= H->res_bodylen_max || H->res_bodylen_alloc - H->res_bodylen_max <= slack));
 	H->res.body = H->res_bodylen_alloc ? malloc(H->res_bodylen_alloc) : NULL; ASSUME(H->res_bodylen_alloc == 0 || H->res.body != NULL);
 	max0 = H->res_bodylen_max;
 	size_t n = nd_size_le(NMAX);
@@ -86,6 +88,7 @@ void h_chunkhdr(void)
 {
 	struct http_cookie * H = mk();
 	H->chunked = 1;
+	ASSUME(H->res.bodylen <= H->res_bodylen_max);	/* between chunks no CRLF is stored */
 #ifdef KF_http_chunkhdr_leading_ws
 	ASSUME(DLEN == 0 || !vhs_space(DATA[0]));	/* known finding: a chunk-size line that starts with white space (e.g. an empty line) */
 #endif
@@ -94,9 +97,7 @@ void h_chunkhdr(void)
 	if (ho_readdata) {
 		CHECK(ho_readlen >= 3, "a data chunk is handed over with its trailing CRLF");
 		CHECK(ho_readlen - 2 <= ho_max - ho_bodylen, "chunk size checked against the remaining limit");
-#ifndef KF_http_chunk_crlf_vs_limit
-		CHECK(ho_readlen <= ho_max - ho_bodylen, "precondition of the data stage (addbody asserts bodylen + buflen <= max): chunk PLUS its CRLF must fit");
-#endif
+		CHECK(ho_chunked == 1, "the data stage knows it is reading a chunk (its trailing CRLF is allowed for and stripped)");
 	}
 	outcome(ho_readdata);
 	REACHED();
@@ -107,9 +108,13 @@ int stub_chunkhdr(void * c, int status) { (void)c; (void)status; ho_chunkhdr++; 
 void h_readdata(void)
 {
 	struct http_cookie * H = mk();
-	/* precondition established by the previous stage: the data still to come fits under the limit */
-	ASSUME(H->readlen >= 1 && H->readlen <= H->res_bodylen_max - H->res.bodylen);
-	if (H->chunked) ASSUME(H->readlen + H->res.bodylen >= 2);
+	/* precondition established by the previous stage: the data still to come fits under the limit; a chunk's trailing
+	 * CRLF (stored until the chunk is complete, then stripped) may exceed it by 2 */
+	{
+		size_t sl = (H->chunked && H->res_bodylen_max <= SIZE_MAX - 2) ? 2 : 0, lim = H->res_bodylen_max + sl;
+		ASSUME(H->readlen >= 1 && H->res.bodylen <= lim && H->readlen <= lim - H->res.bodylen);
+		if (H->chunked) ASSUME(H->readlen + H->res.bodylen >= 2);
+	}
 	/* zero bytes buffered and no body buffer yet => memcpy(NULL + 0, p, 0): nothing is copied; CBMC's memcpy precondition
 	 * (and C11 7.24.1p2 to the letter) objects, which is stricter than the property -- excluded, noted in DESIGN.md */
 	ASSUME(DLEN > 0 || H->res.body != NULL);
@@ -126,6 +131,7 @@ void h_readdata(void)
 void h_toeof_gotclen(void)
 {
 	struct http_cookie * H = mk();
+	ASSUME(!H->chunked);	/* set to 0 when the request is created; only the chunked path sets it */
 	ASSUME(DLEN > 0 || H->res.body != NULL);	/* as in h_readdata */
 	if (nd_bool()) {
 		int status = nd_int_in(-1, 1);
@@ -143,8 +149,11 @@ void h_toeof_gotclen(void)
 void h_readdata_exact(void)
 {
 	struct http_cookie * H = mk();
-	ASSUME(H->readlen >= 1 && H->readlen <= H->res_bodylen_max - H->res.bodylen);
-	if (H->chunked) ASSUME(H->readlen + H->res.bodylen >= 2);
+	{
+		size_t sl = (H->chunked && H->res_bodylen_max <= SIZE_MAX - 2) ? 2 : 0, lim = H->res_bodylen_max + sl;
+		ASSUME(H->readlen >= 1 && H->res.bodylen <= lim && H->readlen <= lim - H->res.bodylen);
+		if (H->chunked) ASSUME(H->readlen + H->res.bodylen >= 2);
+	}
 	ASSUME(DLEN > 0 || H->res.body != NULL);
 	ASSUME(!wait_refuse);
 	static uint8_t D0[NMAX], B0[8];
@@ -172,6 +181,7 @@ void h_chunkhdr_exact(void)
 {
 	struct http_cookie * H = mk();
 	H->chunked = 1;
+	ASSUME(H->res.bodylen <= H->res_bodylen_max);
 	ASSUME(!wait_refuse);
 	size_t d0n = DLEN, bl0 = H->res.bodylen, mx = H->res_bodylen_max;
 	/* well-formed chunk-size line: 1..2 hex digits, optional ';' extension (no CR/LF inside), CR LF */
@@ -184,9 +194,6 @@ void h_chunkhdr_exact(void)
 	ASSUME(e + 2 <= d0n && DATA[e] == '\r' && DATA[e + 1] == '\n');
 	for (size_t k = 0; k + 1 < NMAX; k++) if (k < e) ASSUME(!(DATA[k] == '\r' && DATA[k + 1] == '\n'));
 	(void)ok;
-#ifdef KF_http_chunk_crlf_vs_limit
-	ASSUME(!(v > 0 && v <= mx - bl0 && v + 2 > mx - bl0));
-#endif
 	(void)callback_chunkedheader(H, 0);
 	if (v == 0) { CHECK(ucb_calls == 1 && !ucb_null && cb_bodylen == bl0, "size 0: the body is complete and delivered"); }
 	else if (v > mx - bl0) { CHECK(ucb_calls == 1 && !ucb_null, "chunk beyond the limit: reported as too big"); }
